@@ -63,7 +63,10 @@ class Contract:
         self.options = kw.get("options", {})
         self.ghost_after = kw.get("ghost_after", {})
         self.lemma_after = kw.get("lemma_after", {})
-        self.uses_ensures = kw.get("uses_ensures", {})  # callee qualname -> labels of its postconditions relied upon here  # statement prefix -> [lemma clauses assumed right after that statement]
+        self.uses_ensures = kw.get("uses_ensures", {})
+        self.ext_raises = kw.get("ext_raises", {})  # method name of an opaque object -> exception types a call may raise
+        self.ext_bool = kw.get("ext_bool", ())  # methods of opaque objects that return a bool
+        self.ext_events = kw.get("ext_events", ())  # methods of opaque objects whose calls are recorded (spec: n_calls / call_receiver)  # callee qualname -> labels of its postconditions relied upon here  # statement prefix -> [lemma clauses assumed right after that statement]
 
     def key(self):
         return (self.file, self.qualname)
